@@ -198,6 +198,23 @@ func genPolicyIpld(c *Ctx) {
 				stmt = list(str(c.R.Pick([]string{"and", "or", "not"})), scalar())
 			}
 		}
+		// arity violations of an otherwise well-formed statement: one element too many / too few
+		if c.R.Chance(10) {
+			var items []datamodel.Node
+			it := stmt.ListIterator()
+			for it != nil && !it.Done() {
+				_, v, _ := it.Next()
+				items = append(items, v)
+			}
+			if len(items) > 0 {
+				if c.R.Bool() {
+					items = append(items, sub())
+				} else {
+					items = items[:len(items)-1]
+				}
+				stmt = list(items...)
+			}
+		}
 		return stmt
 	}
 	n := 20000
@@ -217,7 +234,8 @@ func genPolicyIpld(c *Ctx) {
 		c.Emit("polipld/rnd", WNode(pol), policyIpldObs(pol))
 	}
 	for _, j := range []string{`[]`, `[["==",".a",1]]`, `[["and",[]]]`, `[["or",[["not",["like",".b","a*"]]]]]`, `[["all",".a",["any",".",["<",".",3]]]]`,
-		`[["==",".foo[\"",1]]`, `[["==",".?.foo",1]]`, `[["like",".a","a\\"]]`, `[["==",".a",9007199254740992]]`, `{}`, `"x"`, `[[]]`, `[["not"]]`, `[["==",".[\"\"]",1]]`} {
+		`[["==",".foo[\"",1]]`, `[["==",".?.foo",1]]`, `[["like",".a","a\\"]]`, `[["==",".a",9007199254740992]]`, `{}`, `"x"`, `[[]]`, `[["not"]]`, `[["==",".[\"\"]",1]]`,
+		`[["not",["==",".a",1],["==",".b",2]]]`, `[["and",[["==",".a",1]],[]]]`, `[["==",".a"]]`, `[["like",".a"]]`, `[["all",".a"]]`, `[["or",[["not",["==",".a",1],1]]]]`} {
 		nd := J(j)
 		c.Emit("polipld/corpus", WNode(nd), policyIpldObs(nd))
 	}
